@@ -101,10 +101,10 @@ PROP(C06) __CPROVER_ensures((WAS_REENTRY && NEW_INDEX >= 0 && (unsigned long)NEW
 /* the symbols' constraints are not touched between two steps */
 PROP(C06) __CPROVER_ensures(WAS_REENTRY ==> SYMBOLS_UNTOUCHED)
 /* ---- after the body ---- */
-PROP(C06) __CPROVER_ensures((OK && g_run_count == 1 && !(ctx->_breakCondition || ctx->_continueCondition || ctx->_returnCondition || ctx->_root->_returnCondition)) ==> (RET == (const struct Statement *)this || g_ctl_pops == 1))
-PROP(C06) __CPROVER_ensures((OK && g_run_count == 1 && g_ctl_pops == 0) ==> RET == (const struct Statement *)this)
-PROP(C06) __CPROVER_ensures((OK && g_run_count == 1 && g_ctl_pops == 1) ==> (RET == NEXT && !ctx->_breakCondition))
-PROP(C06) __CPROVER_ensures(g_ctl_pops <= 1 && g_run_count <= 1)
+PROP(C06, C08) __CPROVER_ensures((OK && g_run_count == 1 && !(ctx->_breakCondition || ctx->_continueCondition || ctx->_returnCondition || ctx->_root->_returnCondition)) ==> (RET == (const struct Statement *)this || g_ctl_pops == 1))
+PROP(C06, C08) __CPROVER_ensures((OK && g_run_count == 1 && g_ctl_pops == 0) ==> RET == (const struct Statement *)this)
+PROP(C06, C08) __CPROVER_ensures((OK && g_run_count == 1 && g_ctl_pops == 1) ==> (RET == NEXT && !ctx->_breakCondition))
+PROP(C06, C08) __CPROVER_ensures(g_ctl_pops <= 1 && g_run_count <= 1)
 ;
 
 #include FNS_C
